@@ -12,10 +12,29 @@ pub fn calculate_scopes(count: u32) -> Vec<CalculationScope> {
     let mut prev_r = 1_u8;
 
     for i in 0..count {
-        let x: f32 = 48.0 - 48.0 * (1.0 - (i as f32 + 1.0) / count as f32).sqrt();
+        let (mut turn_to, mut river_to) = raw_cut(i, count);
 
-        let turn_to = x.floor() as u8;
-        let river_to = ((48 - turn_to) as f32 * (x % 1.0)).ceil() as u8 + turn_to + 1;
+        // the float formula only proposes a cut. keep it inside the position
+        // space (turn < river <= 48, or the terminal (48, 49)), never behind
+        // the previous cut, and make the last scope end at the terminal.
+        if i + 1 == count || turn_to >= 48 {
+            turn_to = 48;
+            river_to = 49;
+        } else {
+            if river_to <= turn_to {
+                river_to = turn_to + 1;
+            }
+
+            if river_to > 48 {
+                turn_to += 1;
+                river_to = turn_to + 1;
+            }
+
+            if turn_to < prev_t || (turn_to == prev_t && river_to < prev_r) {
+                turn_to = prev_t;
+                river_to = prev_r;
+            }
+        }
 
         scopes.push(CalculationScope {
             turn_from: prev_t,
@@ -29,6 +48,15 @@ pub fn calculate_scopes(count: u32) -> Vec<CalculationScope> {
     }
 
     scopes
+}
+
+fn raw_cut(i: u32, count: u32) -> (u8, u8) {
+    let x: f32 = 48.0 - 48.0 * (1.0 - (i as f32 + 1.0) / count as f32).sqrt();
+
+    let turn_to = x.floor() as u8;
+    let river_to = ((48 - turn_to) as f32 * (x % 1.0)).ceil() as u8 + turn_to + 1;
+
+    (turn_to, river_to)
 }
 
 #[cfg(test)]
